@@ -18,11 +18,9 @@ LEVEL = "proof"
 # NOT_MMAPED, bfa27a0 descriptor closed when flock fails, 8dc0de1 forward-overlapping copy through the file carried out): the
 # oracle demands the repaired behaviour and their directed scripts run on every run.  (OPEN stays as a name for these places.)
 OPEN = True
-# Round 7: findings reported on the unmodified library whose repairs are delivered as fixes/exf-negative-size.diff,
-# fixes/exf-readonly-window-write.diff, fixes/exf-addmmap-overlap-leak.diff.  Until the integrator has committed them the default run
-# does not generate the inputs (negative sizes; writes/copies on a read-only handle with windows; refused overlapping add_mmap watched
-# for its mapping); VERIF_C12_OPEN=1 generates them, runs corpus/C12/pending and reports.  The model already describes the repaired code.
-R7 = os.environ.get("VERIF_C12_OPEN") == "1"
+# Round 7: negative sizes refused (56ca0e5), write/copy on a read-only handle with windows refused (8b1f456), a window refused with
+# OVERLAP gives its mapping back (e633fd2) - repaired in /repo: the inputs are generated and judged on every run.
+R7 = True
 I64 = 1 << 63
 PS = os.sysconf("SC_PAGESIZE")
 OFFMAX = (1 << 63) - 1
